@@ -7,6 +7,7 @@ use vstd::prelude::*;
 //@include ../../shims/prelude.rs
 //@include ../../shims/bytes.rs
 //@include ../../shims/net.rs
+//@include ../../shims/ord.rs
 }
 use shim::*;
 pub mod specs {
@@ -17,8 +18,9 @@ use super::shim::*;
 use specs::*;
 use anyhow::Result;
 type DatagramPacket = (BytesMut, Address);
-broadcast use axiom_v4_len, axiom_v6_len, axiom_string_utf8;
+broadcast use axiom_v4_len, axiom_v6_len, axiom_string_utf8, axiom_slice_cmp_u8;
 
 //@include ../parts/addr.rs
+//@include ../parts/ord.rs
 } // verus!
 fn main() {}
